@@ -141,6 +141,20 @@ def handleC13 (cmd : String) (args : List Sexp) : Option Sexp :=
         match swapSD h1 root s with
         | .error (e, h) => pure (tagged "err2" [errSexp e, heapSexp h ms.length])
         | .ok (h2, _) => pure (tagged "ok" [heapSexp h2 ms.length, tdSexp s])
+  | "c13.roundtrip_sd_hook", [hp, root, p, .list (.atom "paths" :: paths)] => do
+      -- use_state_dict=True with load-state-dict pre-hooks that rewrite the entries at `paths` (object n ↦ n + 500000),
+      -- then the same call on the swap (what `__exit__` does): heap inside the block, heap after it
+      let ms ← heap? hp; let root ← asNat? root; let p ← td? p
+      let paths ← paths.mapM (fun q => match q with
+        | .list names => names.mapM asAtom?
+        | _ => none)
+      let hk : List Name → Tn → Tn := fun path t => if paths.contains path then { t with id := t.id + 500000 } else t
+      match swapSDHook hk (toHeap ms) root p with
+      | .error (e, h) => pure (tagged "err" [errSexp e, heapSexp h ms.length])
+      | .ok (h1, s) =>
+        match swapSDHook hk h1 root s with
+        | .error (e, h) => pure (tagged "err2" [errSexp e, heapSexp h ms.length])
+        | .ok (h2, _) => pure (tagged "ok" [heapSexp h1 ms.length, heapSexp h2 ms.length])
   | "c13.swap", [hp, root, p] => do
       let ms ← heap? hp; let root ← asNat? root; let p ← td? p
       pure (swapAns ms.length (swap (toHeap ms) root p))
